@@ -40,7 +40,8 @@ func genPaging(t *rapid.T, l string, n int) kit.Paging {
 	case 3:
 		p.LimitNone = true
 	case 4:
-		v := int64(-1)
+		// any negative limit means unbounded, not only the -1 the parser uses for "none"
+		v := int64([]int{-1, -1, -2, -3, -100}[rapid.IntRange(0, 4).Draw(t, l+"_limneg")])
 		p.Limit = &v
 	case 5:
 		v := int64(0)
